@@ -258,6 +258,24 @@ pub fn gen_case(
         intents.push(Intent::OtherChan(rng.usize_below(instruments.len())));
     }
     rng.shuffle(&mut intents);
+    // RUNS: one unsubscribed market sends two messages in a row (right after whatever preceded it), and one
+    // subscribed market does the same - a connector sees runs of messages of one market all the time
+    let foreign_at: Vec<usize> = intents.iter().enumerate().filter(|(_, i)| matches!(i, Intent::Foreign(..))).map(|(k, _)| k).collect();
+    if !foreign_at.is_empty() {
+        let k = *rng.pick(&foreign_at);
+        if let Intent::Foreign(t, class) = &intents[k] {
+            let again = Intent::Foreign(t.clone(), class);
+            intents.insert(k + 1, again);
+        }
+    }
+    let sub_at: Vec<usize> = intents.iter().enumerate().filter(|(_, i)| matches!(i, Intent::Sub(_))).map(|(k, _)| k).collect();
+    if !sub_at.is_empty() {
+        let k = *rng.pick(&sub_at);
+        if let Intent::Sub(j) = &intents[k] {
+            let again = Intent::Sub(*j);
+            intents.insert(k + 1, again);
+        }
+    }
 
     // synthesise in final order (Binance L2 updates must be in sequence per book)
     let mut l2: BTreeMap<usize, venue::L2Seq> = BTreeMap::new();
